@@ -2,10 +2,10 @@
 //! All share the operation language and interpreter (`ops.rs`); each selects its own generators,
 //! oracles and non-triviality rule.
 
-use crate::engine::{guarded, replay_one, run_check, CheckSpec, Outcome, Part, PartKind, Tier};
+use super::Case;
+use crate::engine::{guarded, Outcome, Part, PartKind, Tier};
 use crate::gen::{book_case_strategy, core_op, core_sequence, core_space, exact_ref, GenCfg};
 use crate::ops::{run_book_case, BookCase, Features, Op, Oracles};
-use serde_json::json;
 
 pub const TICK: u32 = 2;
 pub const MID: u32 = 50;
@@ -52,7 +52,7 @@ fn nontrivial(id: &str, f: &Features) -> bool {
     }
 }
 
-fn rule(id: &str) -> String {
+pub fn rule(id: &str) -> String {
     let common = "A case is one operation history on one book (configuration + op list; order references are indices mapped onto the ids existing at execution), \
 executed on the real OrderBook with the property's oracle run after EVERY operation and a final drain probe (market orders for both sides' whole volume). \
 distinct_nontrivial = size of the set of hashes of non-trivial cases. ";
@@ -115,17 +115,18 @@ fn case_of(ops: Vec<Op>, tie: bool, trading: bool, levels: usize) -> BookCase {
     BookCase { tick: TICK, levels, trading, t0: 0, tie, ops, drain: true }
 }
 
-fn random_part(name: &str, cfg: GenCfg, cases: u64) -> Part<BookCase> {
-    Part { name: name.to_string(), kind: PartKind::Random { make: Box::new(move || book_case_strategy(cfg.clone())), cases } }
+fn random_part(name: &str, cfg: GenCfg, cases: u64) -> Part<Case> {
+    use proptest::strategy::Strategy;
+    Part { name: name.to_string(), kind: PartKind::Random { make: Box::new(move || book_case_strategy(cfg.clone()).prop_map(Case::Book).boxed()), cases } }
 }
 
-fn exhaustive_core(name: &str, depth: usize, advs: &'static [u64], tie: bool) -> Part<BookCase> {
+fn exhaustive_core(name: &str, depth: usize, advs: &'static [u64], tie: bool) -> Part<Case> {
     let total = core_space(depth, advs.len() as u64);
     Part {
         name: name.to_string(),
         kind: PartKind::Exhaustive {
             total,
-            decode: Box::new(move |i| Some(case_of(core_sequence(i, depth, advs, TICK, MID), tie, true, 3))),
+            decode: Box::new(move |i| Some(Case::Book(case_of(core_sequence(i, depth, advs, TICK, MID), tie, true, 3)))),
             description: format!(
                 "every sequence of exactly {} steps; step k = (clock advance in {:?}) x (16 create-and-place ops: 3 prices x 2 volumes x 2 sides limit + 2 volumes x 2 sides market, or cancel of id 0..k); tick {}, LEVELS 3; all prefixes are audited because the oracle runs after every op",
                 depth, advs, TICK
@@ -135,7 +136,7 @@ fn exhaustive_core(name: &str, depth: usize, advs: &'static [u64], tie: bool) ->
 }
 
 /// cores of depth `d` (tie-free, advance 1 before every op) followed by a decoded tail
-fn exhaustive_tail(name: &str, depth: usize, tail_space: u64, tail: impl Fn(u64, &mut Vec<Op>, &mut BookCase) -> bool + Sync + 'static, descr: String, tie: bool) -> Part<BookCase> {
+fn exhaustive_tail(name: &str, depth: usize, tail_space: u64, tail: impl Fn(u64, &mut Vec<Op>, &mut BookCase) -> bool + Sync + 'static, descr: String, tie: bool) -> Part<Case> {
     static ADV1: [u64; 1] = [1];
     static ADV01: [u64; 2] = [0, 1];
     let advs: &'static [u64] = if tie { &ADV01 } else { &ADV1 };
@@ -153,7 +154,7 @@ fn exhaustive_tail(name: &str, depth: usize, tail_space: u64, tail: impl Fn(u64,
                     return None;
                 }
                 case.ops = ops;
-                Some(case)
+                Some(Case::Book(case))
             }),
             description: descr,
         },
@@ -164,11 +165,11 @@ fn grid_prices() -> [u32; 3] {
     [(MID - 1) * TICK, MID * TICK, (MID + 1) * TICK]
 }
 
-pub fn spec(id: &'static str, tier: Tier) -> CheckSpec<BookCase> {
+pub fn parts(id: &'static str, tier: Tier) -> Vec<Part<Case>> {
     static ADV01: [u64; 2] = [0, 1];
     static ADV1: [u64; 1] = [1];
     let q = tier == Tier::Quick;
-    let mut parts: Vec<Part<BookCase>> = vec![];
+    let mut parts: Vec<Part<Case>> = vec![];
     let len = tier.pick(60, 250);
     match id {
         "C01" => {
@@ -414,56 +415,29 @@ pub fn spec(id: &'static str, tier: Tier) -> CheckSpec<BookCase> {
         }
         _ => unreachable!(),
     }
-    let assumptions = vec![
+    parts
+}
+
+pub fn assumptions(id: &str) -> Vec<String> {
+    vec![
         "valid-history domain enforced by construction: volumes >= 1, limit prices on the grid strictly inside (0, 2^32-1) (except in C12's arbitrary-price generator), per-side created volume budget < 2^32, monotone clock, (LEVELS-1)*tick < 2^32".to_string(),
         if id == "C05" { "equal queue timestamps allowed (no clock discipline)".to_string() } else { "clock discipline: Advance(1) inserted before an operation that could queue at a (side, price, time) possibly already used".to_string() },
         "trusted base: the harness's reference engine / recomputation code, rustc, proptest".to_string(),
-    ];
-    CheckSpec {
-        id,
-        tier,
-        rule: rule(id),
-        assumptions,
-        parts,
-        run: Box::new(move |c| outcome(id, c)),
-        simplify: Some(Box::new(|c: &BookCase| {
-            let mut v = vec![];
-            for i in (0..c.ops.len()).rev() {
-                let mut d = c.clone();
-                d.ops.remove(i);
-                v.push(d);
-            }
-            if c.drain {
-                let mut d = c.clone();
-                d.drain = false;
-                v.push(d);
-            }
-            v
-        })),
-        extra: json!({}),
+    ]
+}
+
+/// candidate simplifications of a failing history (used after proptest / enumeration)
+pub fn simplify(c: &BookCase) -> Vec<BookCase> {
+    let mut v = vec![];
+    for i in (0..c.ops.len()).rev() {
+        let mut d = c.clone();
+        d.ops.remove(i);
+        v.push(d);
     }
-}
-
-fn static_id(id: &str) -> &'static str {
-    match id {
-        "C01" => "C01",
-        "C02" => "C02",
-        "C03" => "C03",
-        "C04" => "C04",
-        "C05" => "C05",
-        "C06" => "C06",
-        "C07" => "C07",
-        "C12" => "C12",
-        "C13" => "C13",
-        _ => panic!("harness: unknown book property"),
+    if c.drain {
+        let mut d = c.clone();
+        d.drain = false;
+        v.push(d);
     }
-}
-
-pub fn run(id: &str, tier: Tier) -> i32 {
-    run_check(spec(static_id(id), tier))
-}
-
-pub fn replay(id: &str, path: &str) -> i32 {
-    let sid = static_id(id);
-    replay_one::<BookCase>(sid, path, |c| outcome(sid, c))
+    v
 }
